@@ -38,7 +38,8 @@ Definition code (t : text) : text := background t (c_code col).
 Definition highlight (t : text) : text := background t (c_highlight col).
 Definition color (t : text) : text := foreground t (c_primary col).
 Definition red (t : text) : text := foreground t (c_error col).
-Definition problem (msg : text) : text := red msg.
+(* style.Problem scrubs the error text (repair): error messages quote network bytes *)
+Definition problem (msg : text) : text := red (scrub msg).
 
 Definition link (t : text) (n : Z) : res text :=
   match superscript n with
